@@ -129,7 +129,7 @@ def gen_program(rng, max_bodies=4, max_ops=6, wild=False, features=("spawn", "jo
                     ops.append("ay")
                 continue
             if rng.random() < new_w:
-                kinds = (["cv"] * 2 if condvars else []) + (["chan"] * 3 if chans and b != closure_body else []) + (["bar"] if barriers else []) + (["once"] if onces and b != closure_body else [])
+                kinds = (["cv"] * 2 if condvars else []) + (["chan"] * 3 if chans and b != closure_body and b < 3 else []) + (["bar"] if barriers else []) + (["once"] if onces and b != closure_body else [])
                 if not kinds:
                     ops.append("yd")
                     continue
